@@ -3,6 +3,7 @@ package checks
 import (
 	gnutar "archive/tar"
 	"bytes"
+	"context"
 	"errors"
 	"fmt"
 	"io"
@@ -34,6 +35,25 @@ func runDesyncIn(cwd string, args ...string) (exit int, stdout, stderr []byte, e
 	cmd.Stdout, cmd.Stderr = &o, &e
 	cmd.Env = append(os.Environ(), "HOME=/nonexistent-verif-home")
 	rerr := cmd.Run()
+	if ee, ok := rerr.(*exec.ExitError); ok {
+		return ee.ExitCode(), o.Bytes(), e.Bytes(), nil
+	}
+	return 0, o.Bytes(), e.Bytes(), rerr
+}
+
+// runDesyncEnv runs the binary with extra environment and a watchdog; a watchdog expiry is errProcTimeout.
+func runDesyncEnv(env []string, limit time.Duration, args ...string) (exit int, stdout, stderr []byte, err error) {
+	ctx, cancel := context.WithTimeout(context.Background(), limit)
+	defer cancel()
+	cmd := exec.CommandContext(ctx, desyncBin(), args...)
+	var o, e bytes.Buffer
+	cmd.Stdout, cmd.Stderr = &o, &e
+	cmd.Env = append(append(os.Environ(), "HOME=/nonexistent-verif-home"), env...)
+	cmd.WaitDelay = 5 * time.Second
+	rerr := cmd.Run()
+	if ctx.Err() != nil {
+		return -1, o.Bytes(), e.Bytes(), errProcTimeout
+	}
 	if ee, ok := rerr.(*exec.ExitError); ok {
 		return ee.ExitCode(), o.Bytes(), e.Bytes(), nil
 	}
@@ -683,8 +703,12 @@ func runC14Proc(c *fw.Case) {
 		}
 		return b
 	}
-	if c.Chance(1, 3, "proc.retrycfg") {
+	switch c.Draw(3, "proc.kind") {
+	case 1:
 		runC14ProcRetry(c)
+		return
+	case 2:
+		runC14ProcSSH(c)
 		return
 	}
 	if c.Bool("proc.index") {
@@ -944,4 +968,202 @@ func tarReadFails(b []byte) bool {
 			return true
 		}
 	}
+}
+
+// sshShimMain is the test binary acting as CASYNC_SSH_PATH: `<shim> <host> "<remote command>"`. Like ssh it hands the
+// command to a shell; VERIF_SSH_CUT=n ends the connection after n bytes of server output (the link dies mid-stream).
+func sshShimMain() {
+	if len(os.Args) < 3 {
+		os.Exit(64)
+	}
+	cmd := exec.Command("/bin/sh", "-c", os.Args[2])
+	cmd.Stdin, cmd.Stderr = os.Stdin, io.Discard
+	cut, err := strconv.Atoi(os.Getenv("VERIF_SSH_CUT"))
+	if err != nil || cut < 0 {
+		cmd.Stdout = os.Stdout
+		if cmd.Run() != nil {
+			os.Exit(1)
+		}
+		os.Exit(0)
+	}
+	out, err := cmd.StdoutPipe()
+	if err != nil || cmd.Start() != nil {
+		os.Exit(65)
+	}
+	io.CopyN(os.Stdout, out, int64(cut))
+	cmd.Process.Kill()
+	os.Exit(255)
+}
+
+// runC14ProcSSH: the casync protocol end to end. The client side is RemoteSSHStore in the harness process or the real
+// `desync extract/cache -s ssh://...`; the "ssh" it starts is the shim above, the remote side the real `desync pull`
+// serving a local store. Faults: chunks missing from the store, and the link dying after n bytes of server output.
+func runC14ProcSSH(c *fw.Case) {
+	exe, err := os.Executable()
+	if err != nil {
+		c.HarnessError("%v", err)
+		return
+	}
+	sz := sizes{64, 256, 1024}
+	blob := genBlob(c, sz, 12*int(sz.max))
+	idx := mkIndex(blob, sz)
+	if len(idx.Chunks) == 0 {
+		c.Outcome("empty")
+		return
+	}
+	storeDir := filepath.Join(c.Dir(), "remote.store")
+	if err := fillLocalStore(storeDir, blob, idx.Chunks); err != nil {
+		c.HarnessError("%v", err)
+		return
+	}
+	cut := -1
+	if c.Chance(1, 3, "ssh.cut") {
+		cut = c.Draw(len(blob)+400, "ssh.cut.at")
+		c.Fault("ssh-link-dies-mid-stream")
+	}
+	n := c.Range(1, 4, "ssh.n")
+	env := []string{"CASYNC_SSH_PATH=" + exe, "VERIF_SSH_SHIM=1", "CASYNC_REMOTE_PATH=" + desyncBin(), "VERIF_SSH_CUT=" + strconv.Itoa(cut)}
+	u := "ssh://verif@remotehost" + storeDir
+	c.NonTrivial()
+	if c.Bool("ssh.binary") {
+		// real binary as client
+		cache := c.Bool("ssh.cache")
+		c.Class(fmt.Sprintf("cli ssh client=binary cache=%v n=%d cut=%v", cache, n, cut >= 0))
+		out := filepath.Join(c.Dir(), "out")
+		cacheDir := filepath.Join(c.Dir(), "cache.d")
+		os.MkdirAll(cacheDir, 0755)
+		indexFile := filepath.Join(c.Dir(), "blob.caibx")
+		writeIndexFile(indexFile, idx)
+		args := []string{"extract", "-n", strconv.Itoa(n), "-s", u, indexFile, out}
+		if cache {
+			args = []string{"cache", "-n", strconv.Itoa(n), "-s", u, "-c", cacheDir, indexFile}
+		}
+		c.Note("real `desync %s` over the ssh shim and `desync pull`, link cut at %d", strings.Join(args, " "), cut)
+		exit, _, stderr, err := runDesyncEnv(env, 90*time.Second, args...)
+		if errors.Is(err, errProcTimeout) {
+			c.Probe("procsim-timeout-case-dropped")
+			return
+		}
+		if err != nil {
+			c.HarnessError("%v", err)
+			return
+		}
+		c.SubEval(1)
+		if exit != 0 {
+			if cut < 0 {
+				c.Violate("present-chunk-failed", "desync "+args[0]+" over ssh", "complete remote store, healthy link, yet exit %d: %s", exit, tailBytes(stderr, 300))
+				return
+			}
+			c.Outcome("error-reported")
+			return
+		}
+		if cache {
+			ls, _ := desync.NewLocalStore(cacheDir, desync.StoreOptions{})
+			for _, ch := range idx.Chunks {
+				got, err := ls.GetChunk(ch.ID)
+				var b []byte
+				if err == nil {
+					b, err = got.Data()
+				}
+				if err != nil || !bytes.Equal(b, blob[ch.Start:ch.Start+ch.Size]) {
+					c.Violate("data-altered", "desync cache over ssh", "exit 0 but chunk %s in the cache is missing or not the stored data (%v)", ch.ID.String()[:8], err)
+					return
+				}
+			}
+		} else if got, err := os.ReadFile(out); err != nil || !bytes.Equal(got, blob) {
+			c.Violate("data-altered", "desync extract over ssh", "exit 0 but the output (%d bytes, %v) is not the blob (%d bytes)", len(got), err, len(blob))
+			return
+		}
+		c.Outcome("ok")
+		return
+	}
+	// RemoteSSHStore in this process; sequential requests, so the session pool (a FIFO) is predictable
+	type obj struct {
+		id      desync.ChunkID
+		data    []byte
+		present bool
+	}
+	var objs []obj
+	seen := map[desync.ChunkID]bool{}
+	for _, ch := range idx.Chunks {
+		if seen[ch.ID] {
+			continue
+		}
+		seen[ch.ID] = true
+		o := obj{id: ch.ID, data: blob[ch.Start : ch.Start+ch.Size], present: true}
+		if c.Chance(1, 4, "ssh.missing") {
+			os.Remove(chunkFile(storeDir, ch.ID, false))
+			o.present = false
+		}
+		objs = append(objs, o)
+	}
+	c.Class(fmt.Sprintf("cli ssh client=library n=%d cut=%v", n, cut >= 0))
+	for _, kv := range env {
+		k, v, _ := strings.Cut(kv, "=")
+		os.Setenv(k, v)
+		if k != "CASYNC_SSH_PATH" {
+			defer os.Unsetenv(k)
+		}
+	}
+	loc, _ := url.Parse(u)
+	st, err := desync.NewRemoteSSHStore(loc, desync.StoreOptions{N: n})
+	if err != nil {
+		if cut >= 0 {
+			c.Outcome("handshake-cut")
+			return
+		}
+		c.Violate("handshake-failed", "RemoteSSHStore", "healthy link: %v", err)
+		return
+	}
+	defer st.Close()
+	dead := make([]bool, n) // session i: the server ends a session after answering "missing"
+	head := 0
+	for i := 0; i < c.Range(1, 12, "ssh.requests"); i++ {
+		o := objs[c.Draw(len(objs), "ssh.req")]
+		useHas := c.Chance(1, 4, "ssh.has")
+		s := head
+		head = (head + 1) % n
+		var ch *desync.Chunk
+		var has bool
+		var err error
+		if useHas {
+			has, err = st.HasChunk(o.id)
+		} else {
+			ch, err = st.GetChunk(o.id)
+		}
+		c.SubEval(1)
+		switch {
+		case err == nil:
+			if !o.present {
+				c.Violate("missing-reported-present", "RemoteSSHStore", "request %d: a chunk that is not in the remote store was delivered / reported present", i)
+				return
+			}
+			if useHas {
+				if !has {
+					c.Violate("present-reported-missing", "RemoteSSHStore", "request %d: HasChunk=false,nil for a present chunk", i)
+					return
+				}
+			} else if b, derr := ch.Data(); derr != nil || !bytes.Equal(b, o.data) {
+				c.Violate("data-altered", "RemoteSSHStore", "request %d returned a chunk that is not the stored data (%v)", i, derr)
+				return
+			}
+		case isMissing(err):
+			if o.present {
+				c.Violate("failure-reported-as-missing", "RemoteSSHStore", "request %d: present chunk reported missing (session dead=%v, cut=%v)", i, dead[s], cut >= 0)
+				return
+			}
+			dead[s] = true
+		default:
+			if cut < 0 && !dead[s] {
+				kind := "present-chunk-failed"
+				if !o.present {
+					kind = "missing-reported-as-error"
+				}
+				c.Violate(kind, "RemoteSSHStore", "request %d (chunk present=%v) on a healthy session and link failed: %v", i, o.present, err)
+				return
+			}
+			dead[s] = true
+		}
+	}
+	c.Outcome("ok")
 }
